@@ -139,6 +139,8 @@ def structures(ident, tier, seed=0):
                     dict(nsat=2, nsig=2, cellmask=seed + 5, maskmode='value', seed=seed),
                     dict(nsat=3, nsig=2, cellmask=seed + 6, maskmode='value', seed=seed + 1),
                     dict(nsat=13, nsig=5, cellmask=seed + 8, maskmode='value', seed=seed + 2)]      # 65 cells: wider than one machine word
+            if ident == '1071':
+                out.append(dict(nsat=26, nsig=4, cellmask='ones', maskmode='value', seed=seed + 3))  # 104 cells: three-digit cell indices
         else:
             out += [dict(nsat=0, nsig=0, cellmask='zero'), dict(nsat=1, nsig=0, cellmask='zero'),
                     dict(nsat=0, nsig=1, cellmask='zero'), dict(nsat=1, nsig=1, cellmask='ones'),
@@ -147,7 +149,7 @@ def structures(ident, tier, seed=0):
                     dict(nsat=2, nsig=2, cellmask=seed + 5), dict(nsat=3, nsig=2, cellmask=seed + 7, maskmode='value', seed=seed),
                     dict(nsat=4, nsig=4, cellmask=seed + 9, maskmode='value', seed=seed + 1), dict(nsat=8, nsig=3, cellmask=seed + 11, maskmode='value', seed=seed + 2)]
     elif k == 'harm':
-        hs = [(0, 0, 0), (0, 1, 0), (0, 1, 1), (1, 1, 1), (0, 2, 1), (0, 2, 5), (0, 0, 3), (1, 1, 4)] if tier == 'quick' else \
+        hs = [(0, 0, 0), (0, 1, 0), (0, 1, 1), (1, 1, 1), (0, 2, 1), (0, 2, 5), (0, 0, 3), (1, 1, 4), (0, 15, 15)] if tier == 'quick' else \
             [(l, n, m) for l in (0, 1, 2) for n in (0, 1, 2, 3) for m in range(0, n + 1)] + \
             [(0, 15, 15), (0, 15, 0), (0, 12, 7), (3, 1, 1), (0, 2, 5), (0, 0, 3), (1, 1, 4), (0, 3, 15)]
         out += [dict(harm=h) for h in hs] + [dict(harm=(1, 1, 1), harmvary=1), dict(harm=(2, 2, 0), harmvary=2)]
@@ -167,6 +169,11 @@ def structures(ident, tier, seed=0):
             if tier != 'quick':
                 out += [dict(mode=('seeded', 4), seed=seed + s) for s in (2, 3)]
                 out += [dict(mode=('maxone', key)) for key in keys]
+            else:
+                # quick: counters of 7 bits and more at their maximum (three-digit group indices), first and last such counter
+                tb = ol.tables()
+                wide = [key for key in keys if key in tb['fields'] and isinstance(tb['fields'][key][1], int) and tb['fields'][key][1] >= 7]
+                out += [dict(mode=('maxone', key)) for key in dict.fromkeys(wide[:1] + wide[-1:])]
     return out
 
 
